@@ -99,3 +99,13 @@ func mustMkdir(p string) {
 }
 
 func join(a ...string) string { return filepath.Join(a...) }
+
+// mix turns (seed, i) into a well-spread rand seed (splitmix64): consecutive seeds given to
+// math/rand produce correlated first draws.
+func mix(seed int64, i int) int64 {
+	z := uint64(seed)*0x9E3779B97F4A7C15 + uint64(i)*0xBF58476D1CE4E5B9 + 0x94D049BB133111EB
+	z = (z ^ (z >> 30)) * 0xBF58476D1CE4E5B9
+	z = (z ^ (z >> 27)) * 0x94D049BB133111EB
+	z ^= z >> 31
+	return int64(z >> 1)
+}
